@@ -17,24 +17,24 @@ def enum_value(be, ed, discr_term, payloads):
     return Enum(Int(discr_term, 64, True), payloads, ed.variant_map(), ed.name)
 
 
-def sym_field(be, name, prefix, reg, pre):
+def sym_field(be, name, prefix, reg, pre, sfx=""):
     """symbolic value for a DbError field, by name"""
     if name == "consistency":
-        return sym_consistency(be, prefix + "_cons", reg, pre)
+        return sym_consistency(be, prefix + "_cons" + sfx, reg, pre)
     if name in ("received", "required", "alive", "numfailures"):
-        return Int(z3.BitVec(f"{prefix}_{name}", 32), 32, True)
+        return Int(z3.BitVec(f"{prefix}_{name}{sfx}", 32), 32, True)
     if name in ("data_present", "rejected_by_coordinator"):
-        return Bool(z3.Bool(f"{prefix}_{name}"))
+        return Bool(z3.Bool(f"{prefix}_{name}{sfx}"))
     if name == "write_type":
         ed = reg.get("WriteType")
-        d = z3.BitVec(f"{prefix}_wt", 64)
+        d = z3.BitVec(f"{prefix}_wt{sfx}", 64)
         pre.append(z3.Or([d == v for _, v, _ in ed.variants]))
         return enum_value(be, ed, d, {ed.discr("Other"): Tup([Opaque("string")])})
     if name == "op_type":
         ed = reg.get("OperationType")
-        d = z3.BitVec(f"{prefix}_op", 64)
+        d = z3.BitVec(f"{prefix}_op{sfx}", 64)
         pre.append(z3.Or([d == v for _, v, _ in ed.variants]))
-        return enum_value(be, ed, d, {ed.discr("Other"): Tup([Int(z3.BitVec(f"{prefix}_opb", 8), 8, False)])})
+        return enum_value(be, ed, d, {ed.discr("Other"): Tup([Int(z3.BitVec(f"{prefix}_opb{sfx}", 8), 8, False)])})
     return Opaque(name)
 
 
@@ -45,19 +45,19 @@ def sym_consistency(be, name, reg, pre):
     return enum_value(be, ed, d, {})
 
 
-def sym_error(be, reg, pre):
+def sym_error(be, reg, pre, sfx=""):
     rae, dbe = reg.get("RequestAttemptError"), reg.get("DbError")
-    dd = z3.BitVec("db_kind", 64)
+    dd = z3.BitVec("db_kind" + sfx, 64)
     pre.append(z3.Or([dd == v for _, v, _ in dbe.variants]))
     dpl = {}
     for vname, dv, fields in dbe.variants:
         if fields:
             if vname == "Other":
-                dpl[dv] = Tup([Int(z3.BitVec("db_other_code", 32), 32, True)])
+                dpl[dv] = Tup([Int(z3.BitVec("db_other_code" + sfx, 32), 32, True)])
             else:
-                dpl[dv] = Tup([sym_field(be, f, "db", reg, pre) for f in fields])
+                dpl[dv] = Tup([sym_field(be, f, "db", reg, pre, sfx) for f in fields])
     db = enum_value(be, dbe, dd, dpl)
-    ed = z3.BitVec("err_kind", 64)
+    ed = z3.BitVec("err_kind" + sfx, 64)
     pre.append(z3.Or([ed == v for _, v, _ in rae.variants]))
     epl = {}
     for vname, dv, fields in rae.variants:
@@ -66,10 +66,10 @@ def sym_error(be, reg, pre):
         elif vname == "BrokenConnectionError":
             # the wrapped reason (Arc<dyn Error>): any BrokenConnectionErrorKind, or some other error type
             bk = reg.get("BrokenConnectionErrorKind")
-            kd = z3.BitVec("broken_kind", 64)
+            kd = z3.BitVec("broken_kind" + sfx, 64)
             pre.append(z3.Or([kd == v for _, v, _ in bk.variants]))
             kind = enum_value(be, bk, kd, {v: Tup([Opaque(f) for f in fs]) for _, v, fs in bk.variants if fs})
-            epl[dv] = Tup([Tup([kind, Bool(z3.Bool("broken_is_kind"))], "BrokenConnectionError")])
+            epl[dv] = Tup([Tup([kind, Bool(z3.Bool("broken_is_kind" + sfx))], "BrokenConnectionError")])
         elif fields:
             epl[dv] = Tup([Opaque(f) for f in fields])
     return enum_value(be, rae, ed, epl), ed, dd
@@ -124,6 +124,11 @@ def run(tier, seed, only):
             policy(ctx, mf, reg, pol)
         except mir.Unsupported as e:
             ctx.add(name=f"smt:c06_translate_{pol}", engine="smt:mir2smt", status="inconclusive",
+                    reason="translator rejected the current source: " + str(e), functions="scylla/src/policies/retry/")
+        try:
+            history(ctx, mf, reg, pol, 3 if tier == "quick" else 4)
+        except mir.Unsupported as e:
+            ctx.add(name=f"smt:c06_translate_history_{pol}", engine="smt:mir2smt", status="inconclusive",
                     reason="translator rejected the current source: " + str(e), functions="scylla/src/policies/retry/")
     return ctx.results
 
@@ -221,6 +226,98 @@ def policy(ctx, mf, reg, pol):
             gl.append(z3.Implies(z3.And(p.pc) if p.pc else z3.BoolVal(True), z3.And([z3.Not(x.t) for x in after.f])))
         ctx.prove(f"c06_{pol}_reset_clears_flags", [], z3.And(gl), inputs=flags, functions=f"{fname}::{{reset,new}}", bounds="any session state",
                   backend="BV", assumes=LIB, witness=False)
+
+
+def history(ctx, mf, reg, pol, k):
+    """k consecutive decisions starting from the state the policy itself creates (`new()`): independent of how the session represents its one-shot markers"""
+    name = f"c06_{pol}_history_k{k}_same_target_retries_bounded_and_each_kind_once"
+    if ctx.skip(name):
+        return
+    be = mir.BVBackend()
+    inl = [r"Consistency::is_serial$", r"max_likely_to_work_cl$", r"RetrySession::new$"]
+    f = {"default": "default", "downgrading": "downgrading_consistency", "fallthrough": "fallthrough"}[pol]
+    fn = mf.find(r"%s\.rs[^>]*>::decide_should_retry\(" % f)
+    bound = {"default": 2, "downgrading": 1, "fallthrough": 0}[pol]
+    rae, dbe, rd = reg.get("RequestAttemptError"), reg.get("DbError"), reg.get("RetryDecision")
+    if pol == "fallthrough":
+        state0 = Tup([], "Session")
+    else:
+        newfn = mf.find(r"%s\.rs[^>]*>::new\(\) -> \w*RetrySession" % f)
+        ps = mir.Interp(mf, be, models(), inline=inl, registry=reg, max_steps=500).run(newfn, [], [])
+        if len(ps) != 1 or ps[0].outcome[0] != "return":
+            raise mir.Unsupported("the session constructor does not run on a single returning path")
+        state0 = ps[0].outcome[1]
+    pre, steps = [], []
+    for i in range(k):
+        err, ek, dk = sym_error(be, reg, pre, f"_{i}")
+        idem = z3.Bool(f"is_idempotent_{i}"); cl = sym_consistency(be, f"req_cons_{i}", reg, pre)
+        steps.append((err, ek, dk, idem, cl))
+    frontier = [([], state0, [])]
+    for i in range(k):
+        err, ek, dk, idem, cl = steps[i]
+        nxt = []
+        for pc, st, ds in frontier:
+            it = mir.Interp(mf, be, models(), inline=inl, registry=reg, max_steps=3000)
+            cell = Cell(mir.copy_value(st))
+            info = Tup([Ref(Cell(mir.copy_value(err))), Bool(idem), mir.copy_value(cl)], "RequestInfo")
+            for p in it.run(fn, [Ref(cell), info], pre + pc):
+                npc = list(p.pc[len(pre):])
+                if p.outcome[0] != "return":
+                    nxt.append((npc, None, ds + [None])); continue
+                nxt.append((npc, sm.deref(Ref(p.locals[1].v.cell)), ds + [p.outcome[1].discr.t]))
+        frontier = nxt
+        if len(frontier) > 6000:
+            raise mir.Unsupported(f"history of {k} decisions forks into more than 6000 paths")
+    goals, cover = [], []
+    one = lambda c: z3.If(c, z3.BitVecVal(1, 8), z3.BitVecVal(0, 8))
+    for pc, st, ds in frontier:
+        c = z3.And(pc) if pc else z3.BoolVal(True)
+        if any(d is None for d in ds):
+            goals.append(z3.Not(c)); continue
+        cover.append(c)
+        same = [d == rd.discr("RetrySameTarget") for d in ds]
+        def kind(i, n): return z3.And(steps[i][1] == rae.discr("DbError"), steps[i][2] == dbe.discr(n))
+        tot = sum((one(x) for x in same), z3.BitVecVal(0, 8))
+        conj = [z3.ULE(tot, bound)]
+        for n in ("ReadTimeout", "WriteTimeout"):
+            conj.append(z3.ULE(sum((one(z3.And(same[i], kind(i, n))) for i in range(k)), z3.BitVecVal(0, 8)), 1))
+        if pol == "default":
+            conj.append(z3.ULE(sum((one(z3.And(ds[i] == rd.discr("RetryNextTarget"), kind(i, "Unavailable"))) for i in range(k)), z3.BitVecVal(0, 8)), 1))
+        goals.append(z3.Implies(c, z3.And(conj)))
+    goals.append(z3.Or(cover) if cover else z3.BoolVal(False))
+    inputs = []
+    for i in range(k):
+        inputs += [steps[i][1], steps[i][2], steps[i][3], z3.BitVec(f"req_cons_{i}", 64)] + [z3.BitVec(f"db_{n}_{i}", 32) for n in ("received", "required", "alive", "numfailures")] + \
+                  [z3.Bool(f"db_data_present_{i}"), z3.BitVec(f"db_wt_{i}", 64), z3.BitVec(f"db_cons_{i}", 64)]
+    ctx.prove(name, pre, z3.And(goals), inputs=inputs,
+              functions=f"{pol} retry session: new() then {k} x decide_should_retry [scylla/src/policies/retry/]",
+              bounds=f"every history of {k} failures (each any RequestAttemptError / DbError variant with symbolic fields, idempotence flag and consistency per attempt) fed to a freshly "
+                     f"created session ({len(frontier)} paths): at most {bound} same-target retries in total, a read timeout and a write timeout each retried on the same target at most once"
+                     + (", an Unavailable moved to the next target at most once" if pol == "default" else "") + "; no panic",
+              backend="BV", assumes=LIB, witness=False, outside=f"histories longer than {k} (covered for the declared three-flag representation by the inductive one_shot_flags obligation)",
+              replay=lambda m, pol=pol, k=k: replay_history(m, pol, k))
+
+
+def replay_history(m, pol, k):
+    from . import native
+    reg = rustenum.Registry(SRC)
+    def vname(en, val):
+        for n, v, _ in reg.get(en).variants:
+            if v == val:
+                return n
+        return "?"
+    def s32(v):
+        v = v or 0
+        return v - (1 << 32) if v >= (1 << 31) else v
+    parts = ["retryhist", pol, str(k)]
+    for i in range(k):
+        parts += [vname("RequestAttemptError", m.get(f"err_kind_{i}", 0)), vname("DbError", m.get(f"db_kind_{i}", 0)), "1" if m.get(f"is_idempotent_{i}") else "0",
+                  vname("Consistency", m.get(f"req_cons_{i}", 0)), str(s32(m.get(f"db_received_{i}"))), str(s32(m.get(f"db_required_{i}"))), str(s32(m.get(f"db_alive_{i}"))),
+                  str(s32(m.get(f"db_numfailures_{i}"))), "1" if m.get(f"db_data_present_{i}") else "0", vname("WriteType", m.get(f"db_wt_{i}", 0)), vname("Consistency", m.get(f"db_cons_{i}", 0))]
+    nat = native.Native("drv")
+    got = nat.ask(" ".join(parts))
+    nat.close()
+    return native.record("C06", f"{pol}_history_k{k}", {"cmd": " ".join(parts), "native": got}, got.startswith("VIOLATES"))
 
 
 def replay(m, pol):
